@@ -221,6 +221,15 @@ fn main() {
             println!("{}", c12file::one(&arg_val(&args, "--path").unwrap_or_else(|| harness_error("--path"))));
             0
         }
+        "c03big" => {
+            let variant = parse_u64(&arg_val(&args, "--variant").unwrap_or_else(|| "1".into())) as u8;
+            let pattern = data::unhex(&arg_val(&args, "--pattern").unwrap_or_else(|| "a40e".into())).unwrap_or_else(|e| harness_error(&e));
+            let seed = parse_u64(&arg_val(&args, "--seed").unwrap_or_else(|| "1".into()));
+            let total = parse_u64(&arg_val(&args, "--total").unwrap_or_else(|| "1073754169".into()));
+            let (code, rep) = c11big::c03_big(variant, &pattern, seed, total);
+            println!("{}", serde_json::to_string(&rep).unwrap());
+            code
+        }
         "bigreader" => {
             let variant = parse_u64(&arg_val(&args, "--variant").unwrap_or_else(|| "1".into())) as u8;
             let pattern = data::unhex(&arg_val(&args, "--pattern").unwrap_or_else(|| "a40e".into())).unwrap_or_else(|e| harness_error(&e));
